@@ -25,6 +25,45 @@ def copt(o):
   return "None" if o is None else f"(Some {cs(o)})"
 
 
+def gen_directed(rng, idx):
+  """every weighted layer kind once WITH and once WITHOUT a bias, activations of every mapped name, a batch norm, frozen layers"""
+  import tensorflow.keras.layers as L
+  from tensorflow.keras import Model, Input
+  inp = Input((8, 8, 3), name=f"in{idx}")
+  x = L.Conv2D(3, 3, padding="same", activation="relu", use_bias=True, name=f"conv2d_{idx}_b")(inp)
+  x = L.Conv2D(2, 3, padding="same", activation="tanh", use_bias=False, name=f"conv2d_{idx}_nb")(x)
+  x = L.BatchNormalization(name=f"bn_{idx}")(x)
+  x = L.DepthwiseConv2D(3, padding="same", activation="sigmoid", use_bias=True, name=f"depthwiseconv2d_{idx}_b")(x)
+  x = L.DepthwiseConv2D(3, padding="same", activation=None, use_bias=False, name=f"depthwiseconv2d_{idx}_nb")(x)
+  x = L.Activation("relu", name=f"act_{idx}_relu")(x)
+  x = L.AveragePooling2D(2, name=f"pool_{idx}")(x)
+  x = L.Flatten(name=f"flat_{idx}")(x)
+  x = L.Dense(4, activation="softmax", use_bias=False, name=f"dense_{idx}_nb")(x)
+  x = L.Activation("tanh", name=f"act_{idx}_tanh")(x)
+  x = L.Dense(3, activation="relu6", use_bias=True, name=f"dense_{idx}_b")(x)
+  m = Model(inp, x, name=f"dm{idx}")
+  m.get_layer(f"conv2d_{idx}_nb").trainable = False
+  m.set_weights([rng.uniform(0.2, 1.5, size=w.shape).astype("float32") for w in m.get_weights()])
+  return m
+
+
+def gen_directed_dict(rng, model, k):
+  """all three parameters for every class; the QActivation entry in rotation: absent, string, per-activation map, empty string"""
+  full = lambda wp: {wp: QSTR[k % len(QSTR)], "bias_quantizer": QSTR[(k + 1) % len(QSTR)], "activation_quantizer": ASTR[k % len(ASTR)]}
+  d = {"QDense": full("kernel_quantizer"), "QConv2D": full("kernel_quantizer"), "QDepthwiseConv2D": full("depthwise_quantizer"),
+       "QAveragePooling2D": {"average_quantizer": QSTR[k % len(QSTR)]}}
+  if k % 4 == 1:
+    d["QActivation"] = ASTR[k % len(ASTR)]
+  elif k % 4 == 2:
+    d["QActivation"] = {"relu": "quantized_relu(4,1)", "tanh": "quantized_tanh(6)"}
+  elif k % 4 == 3:
+    d["QActivation"] = ""
+  if k % 2:
+    del d["QDense"]["activation_quantizer"]        # fall back to quantize_activation(activation_bits)
+    d["QConv2D"]["activation_quantizer"] = ""
+  return d
+
+
 def gen_model(rng, idx):
   import tensorflow.keras.layers as L
   from tensorflow.keras import Model, Input
@@ -155,13 +194,14 @@ def main():
   texts, items = [], []
   n_models = 0
   for i in range(n):
+    directed = i < 4 or (rep.tier != "quick" and i % 25 == 0)
     try:
-      model = gen_model(rng, i)
+      model = gen_directed(rng, i) if directed else gen_model(rng, i)
     except Exception as e:  # pylint: disable=broad-except
       continue
-    d = gen_dict(rng, model)
+    d = gen_directed_dict(rng, model, i) if directed else gen_dict(rng, model)
     bits = int(rng.integers(2, 9))
-    tw = bool(rng.integers(0, 2))
+    tw = bool(i % 2) if directed else bool(rng.integers(0, 2))
     d0 = copy.deepcopy(d)
     cfg0 = json.loads(model.to_json())
     w0 = [w.copy() for w in model.get_weights()]
